@@ -142,6 +142,14 @@ func itemsJSON(items []stackitem.Item) []string {
 	return r
 }
 
+// Every generated loop has a constant bound, so a terminating Go call needs a
+// few thousand instructions; far beyond that the VM side is taken to diverge.
+const (
+	stepBound    = 3_000_000
+	stepBoundMsg = "step bound exceeded (3e6 instructions)"
+	gasBound     = 20_0000_0000
+)
+
 // vmOutcome is the result of one execution on the neo-go side.
 type vmOutcome struct {
 	fault    string // "" when HALT
@@ -175,6 +183,9 @@ func runBare(c compiled, md *manifest.Method, args []argSpec, ret ty) (o vmOutco
 	script := c.nef.Script
 	v.SetOnExecHook(func(_ util.Uint160, ip int, op opcode.Opcode) {
 		o.steps++
+		if o.steps > stepBound {
+			panic(stepBoundMsg)
+		}
 		ctx := v.Context()
 		if recs := shadow[ip]; len(recs) > 0 {
 			for i := len(recs) - 1; i >= 0; i-- {
@@ -306,6 +317,7 @@ func (ce *chainEnv) call(h util.Uint160, method string, args []argSpec, ret ty) 
 		return
 	}
 	defer ic.Finalize()
+	ic.VM.SetGasLimit(gasBound)
 	ic.VM.LoadWithFlags(script, callflag.All)
 	err = func() (err error) {
 		defer func() {
